@@ -24,26 +24,43 @@ package common
 //@ spec size(h *Header) = 8
 //@ spec wf(h *Header) = true
 
+//@ func (*Header).MarshalBinary(h) (data, err)
+//@   inline
+//@ func (*HelloElemHeader).MarshalBinary(h) (data, err)
+//@   inline
+
 //@ spec size(h *HelloElemHeader) = 4
 //@ spec wf(h *HelloElemHeader) = true
 
 //@ spec size(h *HelloElemVersionBitmap) = 4 + 4*len(h.Bitmaps)
-//@ spec wf(h *HelloElemVersionBitmap) = true
+//@ spec wf(h *HelloElemVersionBitmap) = h.Type == 1 && h.Length == uint16(4 + 4*len(h.Bitmaps))
 
 //@ func (*HelloElemVersionBitmap).MarshalBinary(h) (data, err)
+//@   ensures[C02] be16(data, 0) == 1 && be16(data, 2) == uint16(len(data)) && len(data) % 8 == 0
 //@   loop 1:
-//@     invariant next == 4 + 4*#k
+//@     invariant next == 4 + 4*#k && be16(data, 0) == h.Type && be16(data, 2) == h.Length
 
 //@ spec size(h *Hello) = 8 + sum(h.Elements)
-//@ spec wf(h *Hello) = allwf(h.Elements)
+//@ spec wf(h *Hello) = allwf(h.Elements) && h.Header.Version == 4 && h.Header.Type == 0
 
 //@ func (*Hello).Len(h) (n)
 //@   loop 1:
 //@     invariant n == uint16(8 + sum(h.Elements, #k))
 
 //@ func (*Hello).MarshalBinary(h) (data, err)
+//@   ensures[C01] u8(data, 0) == 4 && u8(data, 1) == 0 && be16(data, 2) == uint16(len(data))
 //@   ensures[C13 C01] h.Header.Length == uint16(size(h))
 //@   flag notrunc
 //@   modifies h.Header.Length
 //@   loop 1:
-//@     invariant err == nil && next == 8 + sum(h.Elements, #k)
+//@     invariant err == nil && next == 8 + sum(h.Elements, #k) && u8(data, 0) == h.Header.Version && u8(data, 1) == h.Header.Type && be16(data, 2) == h.Header.Length
+
+//@ func NewHello(ver) (h, err) [C01]
+//@   inline
+//@   allowglobals
+//@   requires ver == 4
+//@   ensures err == nil && h != nil && wf(h)
+//@ func (*HelloElemHeader).Len(h) (n)
+//@   requires true
+//@ func (*Header).Len(h) (n)
+//@   requires true
